@@ -82,9 +82,10 @@ class Capture:
 
     TOOL = 3
 
-    def __init__(self, w1, fail_at=None):
+    def __init__(self, w1, fail_at=None, deep=False):
         self.w1 = w1
         self.fail_at = fail_at
+        self.deep = deep  # True: the fault is raised by the back-end's solve() *inside* linear_solve
         self.linear_calls = []
         self.solve_result = None
         self.swallowed = []
@@ -96,10 +97,55 @@ class Capture:
         def linear_solve(matrix, rhs, *a, **k):
             idx = len(cap.linear_calls)
             if cap.fail_at is not None and idx == cap.fail_at:
-                cap.linear_calls.append({"index": idx, "raised": True})
                 from vf.failpoints import InjectedFault
 
-                raise InjectedFault(f"injected failure of linear solve #{idx}")
+                if not cap.deep:
+                    cap.linear_calls.append({"index": idx, "raised": True, "depth": "boundary"})
+                    raise InjectedFault(f"injected failure of linear solve #{idx}")
+                # deep failpoint: everything linear_solve does before handing the system to its back-end
+                # runs for real; the back-end object's solve() raises (once), then the real back-end is restored
+                state = {"fired": False, "real": None}
+
+                class FailingBackend:
+                    def __init__(self_, real):
+                        self_.real = real
+
+                    def solve(self_, *aa, **kk):
+                        state["fired"] = True
+                        raise InjectedFault(f"injected failure inside the back-end of linear solve #{idx}")
+
+                    def __getattr__(self_, name):
+                        return getattr(self_.real, name)
+
+                originals = {}
+                if hasattr(w1, "linear_solver"):
+                    state["real"] = w1.linear_solver
+                    w1.linear_solver = FailingBackend(w1.linear_solver)
+                for nm in ("setup_direct_solver", "setup_amg_solver", "setup_cg_solver"):
+                    orig_setup = getattr(w1, nm)
+                    originals[nm] = orig_setup
+
+                    def patched(matrix_, _orig=orig_setup):
+                        _orig(matrix_)
+                        state["real"] = w1.linear_solver
+                        w1.linear_solver = FailingBackend(w1.linear_solver)
+
+                    setattr(w1, nm, patched)
+                try:
+                    out = orig_ls(matrix, rhs, *a, **k)
+                    cap.linear_calls.append({"index": idx, "raised": False, "depth": "deep-not-fired"})
+                    return out
+                except InjectedFault:
+                    cap.linear_calls.append({"index": idx, "raised": True, "depth": "deep"})
+                    raise
+                finally:
+                    for nm, fn in originals.items():
+                        try:
+                            delattr(w1, nm)
+                        except AttributeError:
+                            pass
+                    if state["real"] is not None:
+                        w1.linear_solver = state["real"]
             out = orig_ls(matrix, rhs, *a, **k)
             rec = {"index": idx, "raised": False}
             try:
